@@ -1,6 +1,7 @@
 import Bclv.Proofs.Termination
 import Bclv.Props.C10
 import Bclv.Props.C15
+import Bclv.Proofs.Scoped
 /-!
 # C06 — every input ends in a result or an error, never a crash or a hang (partial)
 
@@ -16,8 +17,18 @@ that those outcomes are not reached, and that the machine stops:
   emits no backward jump, the checker rejects `LOOP`);
 * `bind_never_panics` (C15): the binder half of `Unmarshal`.
 
-Not a theorem: that every program the *parser* accepts passes the checker, and that the
-parser's own loops make progress (the model's `stuck` flag).  Both are checked per input:
+* `accepted_program_runs` (`Proofs/Scoped.lean`): for one input, if the parser model accepts
+  it and the tree it built passes the scoping checker `scP` (slots below the number of
+  variables in scope, constant indices in the pool and strings where names are needed,
+  fields only inside blocks, jump distances and variable counts in range), then for every
+  large enough step budget the VM on the compiled program ends with a result or a runtime
+  error — via `evalP_progress` (well-scoped trees never evaluate to `wrong` and end with an
+  empty stack) and compile-correctness (C01).  The checker is computable and the driver
+  evaluates it for every accepted program of the correspondence runs (op `SCOPED`).
+
+Not a theorem: that every tree the *parser* builds passes that checker (resp. that every
+compiled program passes the bytecode checker), and that the parser's own loops make
+progress (the model's `stuck` flag).  Both are checked per input:
 the `wf` stream runs the checker on the compiled form of every generated program
 (including the limit ladders), and the `limits` stream — arbitrary bytes, token soups,
 damaged programs, programs scaled to just below, at and above every implementation limit —
